@@ -201,6 +201,16 @@ def run_case(case, ctx):
             continue        # the scaled diagram does not fit this dtype (larger lattices of the thorough tier)
         _, cpk, fck = build(ctx, [np.array(Dk, dtype=dt)], 0)
         compare(ctx, Dk, cpk, fck, 0, "%s array x %d" % (np.dtype(dt), kk), "landscape-value-int-dtype")
+    # single / half precision diagrams: the landscape is that of the stored values (the sweep's midpoints and
+    # half-lengths are not representable in the narrow type: they must be formed in double precision)
+    D32 = np.array([[b / 3.0 + 0.1, dd / 3.0 + 0.1] for b, dd in D], dtype=np.float32)
+    D32l = [[float(x) for x in row] for row in D32]
+    _, cp32, fc32 = build(ctx, [D32], 0)
+    compare(ctx, D32l, cp32, fc32, 1e-12, "float32 array (generic values)", "landscape-value-narrow-float")
+    D16 = np.array([[1024.0 + 3 * b + 1, 1024.0 + 3 * dd + 2] for b, dd in D], dtype=np.float16)
+    D16l = [[float(x) for x in row] for row in D16]
+    _, cp16, fc16 = build(ctx, [D16], 0)
+    compare(ctx, D16l, cp16, fc16, 1e-9, "float16 array (integers above 1024)", "landscape-value-narrow-float")
     # nested lists; deferred computation (compute=False) triggered by each public accessor, verbose sweep
     _, cpl, fcl = build(ctx, [[list(p) for p in D]], 0)
     compare(ctx, D, cpl, fcl, 0, "nested lists", "landscape-value-container")
